@@ -2,6 +2,8 @@ package c10
 
 import (
 	"bytes"
+	"reflect"
+	"unsafe"
 	"fmt"
 	"math/rand/v2"
 	"runtime"
@@ -961,33 +963,30 @@ func execCDag(x *fw.Ctx, c Case) {
 	nRegistered.Store(int64(len(plan)))
 	close(begin)
 	// The goroutines make a few dozen trivial calls. If they have not all
-	// returned after 20 s and a further call from a new goroutine does not
-	// return within 5 s either, dispatch on this generic function is blocked
-	// for good (a leaked lock); the goroutines are abandoned.
+	// returned after 15 s and nobody can take the generic function's lock,
+	// a call left it locked (it panicked between Lock and Unlock): every
+	// other caller waits for it for good. The harness then releases the lock
+	// itself so that the goroutines can be joined.
 	done := make(chan struct{})
 	go func() { wg.Wait(); close(done) }()
 	select {
 	case <-done:
-	case <-time.After(20 * time.Second):
-		probe := make(chan struct{})
-		go func() {
-			defer close(probe)
-			obj := pool["clos"][4][1]
-			ps := world.NewScope()
-			ps.Let(slip.Symbol("x"), obj)
-			ps.Let(slip.Symbol("y"), obj)
-			_ = sl.Catch(func() { slip.ReadString("("+g.name+" x"+map[int]string{1: "", 2: " y"}[c.Ar]+")", ps).Eval(ps, nil) })
-		}()
-		select {
-		case <-done:
-		case <-probe:
-			<-done
-		case <-time.After(5 * time.Second):
-			nRegistered.Store(0)
-			x.Fail("cdag dispatch-deadlock", "class definitions [%s] while %d goroutines call %s: the calls never return and a further call blocks too "+
-				"(every caller waits for the generic function's lock, which an earlier call did not release)", strings.Join(c.Thr[0], " "), len(plan)-1, g.name)
-			return
+	case <-time.After(15 * time.Second):
+		if lockLeaked(g.name) {
+			x.Fail("dispatch-lock-leak cdag", "class definitions [%s] while %d goroutines call %s: the calls never return; "+
+				"every caller waits for the generic function's lock, which an earlier call did not release", strings.Join(c.Thr[0], " "), len(plan)-1, g.name)
+			for k := 0; k < 100; k++ {
+				select {
+				case <-done:
+					k = 100
+				case <-time.After(100 * time.Millisecond):
+					if lockLeaked(g.name) {
+						forceUnlock(g.name)
+					}
+				}
+			}
 		}
+		<-done
 	}
 	nRegistered.Store(0)
 	for k := range traces {
@@ -1011,7 +1010,11 @@ func execCDag(x *fw.Ctx, c Case) {
 	for t := range plan {
 		for _, p := range plan[t] {
 			if p.got.Err != nil && p.got.Err.Internal {
-				x.Fail("cdag internal-fault", "%s => %s; methods [%s]; history:\n  %s", p.op, p.got.Err, st, strings.Join(lines, "\n  "))
+				x.Fail("call-on-unfinished-class diff=internal-fault cdag", "%s => %s (class definitions in flight: [%s]); methods [%s]; history:\n  %s",
+					p.op, p.got.Err, strings.Join(c.Thr[0], " "), st, strings.Join(lines, "\n  "))
+				if lockLeaked(g.name) {
+					forceUnlock(g.name)
+				}
 				return
 			}
 			if p.buf == nil {
@@ -1091,4 +1094,44 @@ func indexIn(xs []int, v int) int {
 		}
 	}
 	return 0
+}
+
+// auxLock gives the harness access to the (unexported) mutex of a generic
+// function, only to find out whether a call left it locked and to release it
+// again so that the worker does not hang on a listed finding.
+func auxLock(name string) *sync.Mutex {
+	fi := slip.FindFunc(name)
+	if fi == nil || fi.Aux == nil {
+		return nil
+	}
+	v := reflect.ValueOf(fi.Aux)
+	if v.Kind() != reflect.Pointer || v.Elem().Kind() != reflect.Struct {
+		return nil
+	}
+	f := v.Elem().FieldByName("moo")
+	if !f.IsValid() || f.Type() != reflect.TypeOf(sync.Mutex{}) {
+		return nil
+	}
+	return (*sync.Mutex)(unsafe.Pointer(f.UnsafeAddr()))
+}
+
+// lockLeaked tells whether the generic function's lock cannot be taken. Only
+// meaningful when no call can legitimately be inside the critical section
+// (sequential cases; concurrent cases after a long stall).
+func lockLeaked(name string) bool {
+	mu := auxLock(name)
+	if mu == nil {
+		return false
+	}
+	if mu.TryLock() {
+		mu.Unlock()
+		return false
+	}
+	return true
+}
+
+func forceUnlock(name string) {
+	if mu := auxLock(name); mu != nil {
+		_ = sl.Catch(func() { mu.Unlock() })
+	}
 }
